@@ -356,23 +356,34 @@ func checkC15(c *CheckCtx) error {
 		return err
 	}
 	cases = thin(cases, c.pick(2500, 0), c.Seed)
-	d, err := c.driver()
-	if err != nil {
-		return err
-	}
-	type job struct {
-		dc    *docCase
-		yaml  bool
-		style int
-		text  string
-	}
-	var jobs []*job
+	var jobs []*docJob
 	for i, dc := range cases {
-		jobs = append(jobs, &job{dc: dc, style: i % 3, text: jsonOfDoc(dc.D, i%3)})
-		jobs = append(jobs, &job{dc: dc, yaml: true, text: yamlOfDoc(dc.D)})
+		jobs = append(jobs, &docJob{dc: dc, style: i % 3, text: jsonOfDoc(dc.D, i%3)})
+		jobs = append(jobs, &docJob{dc: dc, yaml: true, text: yamlOfDoc(dc.D)})
 		if len(dc.MS) > 0 {
 			c.nontrivial(fmt.Sprintf("%v|%v", dc.D, dc.MS))
 		}
+	}
+	if err := c.judgeDirect(jobs); err != nil {
+		return err
+	}
+	// through the entry points: the caller's []byte must survive MatchJSON / MatchYAML
+	return c.docsEntryPoints(cases, "C15")
+}
+
+type docJob struct {
+	dc    *docCase
+	yaml  bool
+	style int
+	text  string
+}
+
+// judgeDirect applies the real matchers directly to the documents and lets TLC compare with
+// Docs!ApplyAll (MC_DocsCheck).
+func (c *CheckCtx) judgeDirect(jobs []*docJob) error {
+	d, err := c.driver()
+	if err != nil {
+		return err
 	}
 	// bulk: one history per chunk of jobs
 	var scs []*Scenario
@@ -497,8 +508,7 @@ func checkC15(c *CheckCtx) error {
 			return inconclusive("MC_DocsCheck reported a violation that could not be located:\n%s", tail([]byte(res.Output), 2000))
 		}
 	}
-	// through the entry points: the caller's []byte must survive MatchJSON / MatchYAML
-	return c.docsEntryPoints(cases, "C15")
+	return nil
 }
 
 // docsKnown: signatures of known findings for directly applied matchers
